@@ -150,7 +150,10 @@ class Ctx:
         self.tier = tier
         self.seed = seed
         self.t0 = time.time()
-        self.bdir = os.path.join(VERIF, "build", pid)
+        # BB_TAG (development only): a private build directory and private evidence / replay directories, so that a run against
+        # a scratch tree can go on beside a registered run of the same check
+        self.tag = os.environ.get("BB_TAG", "")
+        self.bdir = os.path.join(VERIF, "build", pid + ("-" + self.tag if self.tag else ""))
         self.obligations = []  # dicts: name, file, status ('ok'|'broken'|'unchecked'), detail
         self.axioms = set()
         self.broken = []  # human-readable list of what no longer checks
@@ -372,10 +375,11 @@ def known_findings(pid):
 
 
 def write_replay(ctx, payload):
-    os.makedirs(os.path.join(VERIF, "replays"), exist_ok=True)
+    rdir = os.path.join(VERIF, "replays") if not ctx.tag else os.path.join(VERIF, "build", "replays-" + ctx.tag)
+    os.makedirs(rdir, exist_ok=True)
     blob = json.dumps(payload, sort_keys=True, default=str)
     h = hashlib.sha1(blob.encode()).hexdigest()[:10]
-    path = os.path.join(VERIF, "replays", f"{ctx.pid}-{h}.json")
+    path = os.path.join(rdir, f"{ctx.pid}-{h}.json")
     with open(path, "w") as f:
         json.dump(payload, f, indent=1, default=str)
     return path
@@ -425,8 +429,9 @@ def finish(ctx: Ctx, level="proof"):
         wall_s=round(time.time() - ctx.t0, 2),
         violations=len(vio_lines),
     )
-    os.makedirs(os.path.join(VERIF, "evidence"), exist_ok=True)
-    with open(os.path.join(VERIF, "evidence", f"{ctx.pid}.json"), "w") as f:
+    edir = os.path.join(VERIF, "evidence") if not ctx.tag else os.path.join(VERIF, "build", "evidence-" + ctx.tag)
+    os.makedirs(edir, exist_ok=True)
+    with open(os.path.join(edir, f"{ctx.pid}.json"), "w") as f:
         json.dump(ev, f, indent=1, default=str)
     for l in ctx.known_printed:
         print(l)
